@@ -362,6 +362,7 @@ class BuildVariants(BoundedCheck):
             for st in settings:
                 yield {'script': G.render_script(p), 'tree': True, 'settings': st}
         yield {'script': '`self.Q = 1`', 'tree': False, 'settings': {}}
+        yield {'script': '`self.K[t] = self.K[t] + 1`\nY = K + 1\n`self.K[t] = self.K[t] + 1`', 'tree': True, 'settings': {}}
         yield {'script': '```\nself.Q = 1\nself.R = 2\n```\n`self.S = self.Q + 1`', 'tree': False, 'settings': {}}
 
     def check(self, case, res: BoundedResult):
@@ -462,6 +463,7 @@ class GraphEdges(BoundedCheck):
         V_ = lambda n, k=0: G.Var('var', n, k)   # noqa: E731
         yield {'script': 'Y = C + G + 0.25 * Y', 'seed': 1}
         yield {'script': 'C = {a}[-1] + <e>[1]', 'seed': 2}
+        yield {'script': "Y = X + V['2005'] + W[`2001`]", 'seed': 3, 'named': True}
 
     @staticmethod
     def label(v: G.Var) -> str:
@@ -471,12 +473,20 @@ class GraphEdges(BoundedCheck):
         import fsic
         import fsic.tools
         script = case['script']
-        p = G.parse_script(script)
         out = []
         jcase = {'script': script}
         res.nontrivial.add(script)
         symbols = fsic.parse_model(script)
         g = fsic.tools.symbols_to_graph(symbols)
+        if case.get('named'):
+            # named-period terms are variable-like terms too: the variable read through a named period has an edge into y
+            preds = set(g.predecessors('Y[t]')) if 'Y[t]' in g.nodes else set()
+            for want in ("V['2005']", 'W[2001]', 'X[t]'):
+                if want not in preds:
+                    out.append(Violation('edge x -> y for exactly the variable, parameter and error terms on the right-hand side of y (named periods included)',
+                                         'c20.edges:named-period', jcase, want, sorted(preds), 'edges'))
+            return out
+        p = G.parse_script(script)
         by_name = {}
         for q in p:
             by_name.setdefault(q.lhs.name, q)
